@@ -192,3 +192,13 @@ def run(chk):
                        "factory: None = all outputs, an integer k (0 included) = component k only, a slice = itself", floor=6)
     from .C10 import factory_slice_rule
     factory_slice_rule(chk, "C05.R4")
+
+    # ---------------- R5 "row i evaluated with row i of any observed parameter" starts in the loader: one index vector gathers the
+    # input, the value and every observed parameter of a mini-batch
+    chk.rule("C05.R5", "the observation loader gathers input, value and every observed equation parameter with the same row indices", floor=1)
+    from ..genenv import GenEnv
+    from .C15 import check_obs_gather
+    G5 = GenEnv(chk.repo)
+    chk.files.update(G5.w.files)
+    chk.run("C05.R5", "jinns.data._DataGenerators:DataGeneratorObservations.obs_batch", {}, (lambda: check_obs_gather(G5)),
+            construct="aligned observation batch")
